@@ -2,6 +2,7 @@ package c03
 
 import (
 	"fmt"
+	"regexp"
 	"strings"
 	"sync"
 	"testing"
@@ -25,6 +26,33 @@ type Case struct {
 	NoMain  bool
 	// Types: expected static types of let-bound variables ("function/variable" -> canonical type)
 	Types map[string]string `json:",omitempty"`
+	// Base: for generated mutants, the text of the accepted program the mutant was made from (documentation)
+	Base string `json:",omitempty"`
+}
+
+// mutantDiff: the lines of the mutant that differ from its base, with two lines of context.
+func mutantDiff(c Case) string {
+	if c.Base == "" {
+		return ""
+	}
+	a, b := strings.Split(c.Base, "\n"), strings.Split(c.Modules[c.Entry], "\n")
+	i := 0
+	for i < len(a) && i < len(b) && a[i] == b[i] {
+		i++
+	}
+	ja, jb := len(a), len(b)
+	for ja > i && jb > i && a[ja-1] == b[jb-1] {
+		ja, jb = ja-1, jb-1
+	}
+	lo := i - 12
+	if lo < 0 {
+		lo = 0
+	}
+	hi := jb + 3
+	if hi > len(b) {
+		hi = len(b)
+	}
+	return fmt.Sprintf("--- mutated site (lines %d-%d of the mutant; base had: %q)\n%s\n---\n", i+1, jb, strings.Join(a[i:ja], "\n"), strings.Join(b[lo:hi], "\n"))
 }
 
 func analyze(c Case) (*sb.Response, *pk.Failure) {
@@ -87,6 +115,14 @@ func checkAccept(c Case) *pk.Failure {
 				continue // not a top-level let of the function (nested lets are not reported)
 			}
 			pk.Extra("types-compared", 1)
+			if (strings.Contains(g, "never") || strings.Contains(g, "unknown")) && want != g && initDiverges(c.ProgCase, name) {
+				// (`unknown` is what a member or operator applied to a never-typed operand yields)
+				// The initialiser contains a diverging construct (throw / return / break / continue): when
+				// that construct is always executed, `never` is the more precise type of the initialiser,
+				// and the property does not say which of the two the rules assign to unreachable code.
+				pk.Extra("types-never-for-diverging-initialiser", 1)
+				continue
+			}
 			if g != want {
 				return pk.Failf("accept", "recorded-type:"+want+"->"+g, "variable %s: the analyzer recorded type %s, the typing rules assign %s\n%s", name, g, want, px.ProgText(c.ProgCase))
 			}
@@ -110,7 +146,7 @@ func checkReject(c Case) *pk.Failure {
 		if len(resp.SyntaxErrors) > 0 {
 			return pk.Failf("reject", "template-syntax-error:"+c.Rule, "the ill-typed template for %s in %s does not even parse (harness bug):\n%s%s", c.Rule, c.Context, diagText(resp), px.ProgText(c.ProgCase))
 		}
-		return pk.Failf("reject", "accepted-ill-typed:"+c.Rule+":"+c.Context, "program breaking rule %q in context %q received no error-level diagnostic:\n%s%s", c.Rule, c.Context, diagText(resp), px.ProgText(c.ProgCase))
+		return pk.Failf("reject", "accepted-ill-typed:"+c.Rule+":"+c.Context, "program breaking rule %q in context %q received no error-level diagnostic:\n%s%s%s", c.Rule, c.Context, mutantDiff(c), diagText(resp), px.ProgText(c.ProgCase))
 	}
 	return nil
 }
@@ -254,6 +290,19 @@ var topRules = []topRule{
 	{name: "duplicate-type", good: "type T = int;\ntype U = int;\nfn main() { let v: T = 1; let w: U = 2; println(v, w); }\n", bad: "type T = int;\ntype T = str;\nfn main() { println(1); }\n"},
 	{name: "non-constant-global-call", good: "let g = 1 + 2;\nfn main() { println(g); }\n", bad: helpers + "let g = ret_int();\nfn main() { println(g); }\n"},
 	{name: "global-type-mismatch", good: "let g: int = 1;\nfn main() { println(g); }\n", bad: "let g: int = \"s\";\nfn main() { println(g); }\n"},
+	// A function whose result comes from a `loop` that is only left through `return` needs no tail value; other loops
+	// with their own `break` (before it, inside it, in an earlier function) do not change that. The bad twin's loop
+	// has a break of its own, so the function can fall through without a value.
+	{name: "loop-result-plain", good: "fn f() -> int { loop { return 1; } }\nfn main() { println(f()); }\n", bad: "fn f(c: bool) -> int { loop { if c { break; } return 1; } }\nfn main() { println(f(true)); }\n"},
+	{name: "loop-result-after-for-break", good: "fn f(c: bool) -> int { for i in 0..3 { if c { break; } } loop { return 1; } }\nfn main() { println(f(true)); }\n", bad: "fn f(c: bool) -> int { for i in 0..3 { if c { break; } } loop { if c { break; } return 1; } }\nfn main() { println(f(true)); }\n"},
+	{name: "loop-result-after-while-break", good: "fn f(c: bool) -> int { while true { if c { break; } } loop { return 1; } }\nfn main() { println(f(true)); }\n", bad: "fn f(c: bool) -> int { while true { if c { break; } } loop { if c { break; } return 1; } }\nfn main() { println(f(true)); }\n"},
+	{name: "loop-result-around-for-break", good: "fn f(c: bool) -> int { loop { for i in 0..3 { if c { break; } } return 1; } }\nfn main() { println(f(true)); }\n", bad: "fn f(c: bool) -> int { loop { for i in 0..3 { if c { break; } } if c { break; } return 1; } }\nfn main() { println(f(true)); }\n"},
+	{name: "loop-result-around-while-break", good: "fn f(c: bool) -> int { loop { while c { break; } return 1; } }\nfn main() { println(f(true)); }\n", bad: "fn f(c: bool) -> int { loop { while c { break; } if c { break; } return 1; } }\nfn main() { println(f(true)); }\n"},
+	{name: "loop-result-around-loop-break", good: "fn f(c: bool) -> int { loop { loop { break; } return 1; } }\nfn main() { println(f(true)); }\n", bad: "fn f(c: bool) -> int { loop { loop { break; } if c { break; } return 1; } }\nfn main() { println(f(true)); }\n"},
+	{name: "loop-result-after-earlier-function", good: "fn g(c: bool) { for i in 0..3 { if c { break; } } while c { break; } loop { break; } }\nfn f() -> int { loop { return 1; } }\nfn main() { g(true); println(f()); }\n", bad: "fn g(c: bool) { for i in 0..3 { if c { break; } } }\nfn f(c: bool) -> int { loop { if c { break; } return 1; } }\nfn main() { g(true); println(f(true)); }\n"},
+	{name: "loop-result-after-block-return", good: "fn b(c: bool) -> int { if c { { return 1; }; } 2 }\nfn f(s: str) -> str { loop { return s; } }\nfn main() { println(b(true), f(\"x\")); }\n", bad: "fn b(c: bool) -> int { if c { { return 1; }; } 2 }\nfn f(s: str) -> str { loop { if s == \"\" { break; } return s; } }\nfn main() { println(b(true), f(\"x\")); }\n"},
+	{name: "loop-result-throw-inside", good: "fn f(c: bool) -> int { loop { if c { throw(\"x\"); } return 1; } }\nfn main() { println(f(false)); }\n", bad: "fn f(c: bool) -> int { loop { if c { break; } return 1; } }\nfn main() { println(f(false)); }\n"},
+	{name: "loop-result-in-lambda-break", good: "fn f() -> int { loop { let l = fn(n: int) -> int { let k = n; for i in 0..3 { if i > k { break; } } k }; return l(1); } }\nfn main() { println(f()); }\n", bad: "fn f(c: bool) -> int { loop { let l = fn(n: int) -> int { n }; if c { break; } return l(1); } }\nfn main() { println(f(true)); }\n"},
 	{name: "missing-main", good: "fn main() { println(1); }\n", bad: "fn other() { println(1); }\n"},
 	{name: "main-with-parameters", good: "fn main() { println(1); }\n", bad: "fn main(x: int) { println(x); }\n"},
 	{name: "main-with-return-type", good: "fn main() { println(1); }\n", bad: "fn main() -> int { 1 }\n"},
@@ -374,6 +423,7 @@ func TestAcceptGenerated(t *testing.T) {
 	pk.SkipIfReplay(t)
 	cfg := gen.ModelCfg()
 	cfg.Unicode = true
+	cfg.CalmTry = true // so that recorded types are compared, not excused (see initDiverges)
 	rapid.Check(t, func(rt *rapid.T) {
 		g := gen.Program(rt, cfg)
 		pk.Eval()
@@ -395,6 +445,7 @@ func TestAcceptGenerated(t *testing.T) {
 func TestRejectMutants(t *testing.T) {
 	pk.SkipIfReplay(t)
 	cfg := gen.ModelCfg()
+	cfg.CalmTry = true
 	perBase := pk.Scale(6, 1000) // thorough: every site of the base
 	rapid.Check(t, func(rt *rapid.T) {
 		g := gen.Program(rt, cfg)
@@ -420,7 +471,7 @@ func TestRejectMutants(t *testing.T) {
 		for k := 0; k < n; k++ {
 			s := sites[(start+k*7)%len(sites)]
 			s.Apply()
-			c := Case{ProgCase: px.FromGenerated(g), Rule: s.Rule, Context: s.Where}
+			c := Case{ProgCase: px.FromGenerated(g), Rule: s.Rule, Context: s.Where, Base: base.Modules[base.Entry]}
 			s.Undo()
 			pk.Eval()
 			pk.Class("mutant-rule:" + s.Rule)
@@ -429,4 +480,46 @@ func TestRejectMutants(t *testing.T) {
 			pk.Judge(rt, c, checkReject(c))
 		}
 	})
+}
+
+var divergingRe = regexp.MustCompile(`\b(throw\(|return\b|break\b|continue\b)`)
+
+// initDiverges: does the initialiser of `let <name>` (name as "fn/var" or "var") contain a
+// diverging construct? The initialiser is the text from the `=` to the `;` at bracket depth 0.
+func initDiverges(c px.ProgCase, name string) bool {
+	if i := strings.LastIndexByte(name, '/'); i >= 0 {
+		name = name[i+1:]
+	}
+	re := regexp.MustCompile(`\blet\s+` + regexp.QuoteMeta(name) + `\b[^=;]*=`)
+	for _, text := range c.Modules {
+		for _, loc := range re.FindAllStringIndex(text, -1) {
+			depth, inStr := 0, false
+			end := len(text)
+		scan:
+			for i := loc[1]; i < len(text); i++ {
+				ch := text[i]
+				switch {
+				case inStr:
+					if ch == '\\' {
+						i++
+					} else if ch == '"' {
+						inStr = false
+					}
+				case ch == '"':
+					inStr = true
+				case ch == '(' || ch == '[' || ch == '{':
+					depth++
+				case ch == ')' || ch == ']' || ch == '}':
+					depth--
+				case ch == ';' && depth == 0:
+					end = i
+					break scan
+				}
+			}
+			if divergingRe.MatchString(text[loc[1]:end]) {
+				return true
+			}
+		}
+	}
+	return false
 }
